@@ -22,6 +22,7 @@ import sys
 import time
 from concurrent.futures import ThreadPoolExecutor
 
+import k4_fmtmodel
 import k4_front as k4
 import k4_lexmodel
 import lv
@@ -1133,6 +1134,7 @@ def check_C17(work, args):
                       'comments: the output lexes to the same tokens and comments, parses without syntax error and draws the same (code, message) multiset. '
                       'non-trivial = at least 2 (texts) / 8 (layouts) non-whitespace tokens; distinct by text (64-bit hash)' % (maxn, len(k4.LEXEMES)), settled)
     ck.cov.update(lexcov)
+    ck.cov.update(k4_fmtmodel.check_hook(ck, 'C17', k4_fmtmodel.sample_jobs(jobs + ljobs, ck.rng, 1500 if quick else 40000, total_bytes=400000 if quick else 8000000)))
     ck.cov['layout_cases'] = n_layout
     ck.cov['layout_cases_compared_tokens_and_diagnostics'] = comparisons
     ck.cov['exhaustive_part'] = 'generator (a): every sequence of at most %d lexemes x 2 joiners (%d texts)' % (maxn, sum(k4.seq_count(n) for n in range(maxn + 1)))
@@ -1233,6 +1235,7 @@ def check_C18(work, args):
                       'plus every repo .llw file as is: format(format(x)) == format(x) in-process; on a sample, the real binary: `llw -f -c x` exits 1 exactly when '
                       'format(x) != x and leaves the file alone, `llw -f x` writes format(x), then `llw -f -c x` exits 0. '
                       'non-trivial = syntactically valid with at least 8 non-whitespace tokens; distinct by text (64-bit hash)', settled)
+    ck.cov.update(k4_fmtmodel.check_hook(ck, 'C18', k4_fmtmodel.sample_jobs(jobs, ck.rng, 1500 if quick else 40000, total_bytes=400000 if quick else 8000000)))
     ck.cov['cli'] = dict(cli_stats)
     ck.assumptions = TRUST + ['idempotence is checked per case, not proved (dprint-core\'s printer is not modelled)']
     ck.finish()
